@@ -239,6 +239,11 @@ func verifRequest() *http.Request {
 	req := zz.NewRequest(zz.NondetString("req.method"), zz.NondetString("req.host"), zz.NondetString("req.path"), zz.NondetString("req.query"))
 	zz.Assume(req.Host != "")
 	zz.Assume(!strings.Contains(req.Host, ":"))
+	// an origin-form request target as the router hands it on: begins with "/", already clean
+	p := req.URL.Path
+	zz.Assume(zz.And(strings.HasPrefix(p, "/"), !strings.Contains(p, "//"), !strings.Contains(p, "/."), !strings.Contains(p, "%"), !strings.Contains(p, "?"), !strings.Contains(p, "#"), !strings.Contains(p, " ")))
+	q := req.URL.RawQuery
+	zz.Assume(zz.And(!strings.Contains(q, "#"), !strings.Contains(q, " "), !strings.Contains(q, "%"), !strings.Contains(q, ";")))
 	if zz.NondetBool("req.xhr") {
 		req.Header.Set("X-Requested-With", "XMLHttpRequest")
 	}
